@@ -44,6 +44,28 @@ CLAIMS["C11"] = dict(
     technique="static analysis: structured-CFG path rules + AST interpretation of validation conditions (Engler-style error discipline)",
     design="§3 E5, §4 C11", engine="E5")
 
+CLAIMS["C12"] = dict(
+    category="other",
+    text="Static member-state hygiene over all call histories: effects of every statement of ClipperBase/Clipper64/ClipperD, ClipperOffset, "
+         "RectClip64 and RectClipLines64 on their members are abstracted from the AST and decided by forward must-analyses with interprocedural "
+         "summaries and configuration splitting: scratch members are defined before use in every Execute (DBU); scratch containers empty at entry "
+         "are empty at every normal exit of every public method (CLEAN, induction over histories); Clear() resets what Add* modifies (CLEAR); "
+         "nothing is carried between iterations of the per-group / per-path loops (LOOP); no pointer-order dependence; shared Vertex data is "
+         "written only while loading paths. A history can only act through a surviving member, so this quantifies over all sequences.",
+    note="Checks the repository's own idiom (Reset at entry, CleanUp at exit) - a sufficient condition: deleting a redundant reset is reported. "
+         "Exceptional exits (bad_alloc mid-operation) are not covered. std:: container methods are modelled by a frozen table.",
+    technique="static analysis: field-effect abstraction of the AST + forward must-dataflow (def-before-use, container typestate, loop-carried state)",
+    design="§3 E2, §4 C12", engine="E2")
+CLAIMS["C07"] = dict(
+    category="other",
+    text="Three necessary structural clauses decided statically: (i) no member/outer local written while offsetting one path or group is read "
+         "while offsetting the next (E2 loop rule, with and without delta callback); (ii) outside the EndType::Polygon branch delta is only read "
+         "through abs(), hence +delta == -delta by construction; (iii) start/end cap dispatch tables extracted by interpreting both switches for "
+         "every EndType equal Butt->DoBevel(i,i), Round->DoRound(i,i,PI), Square->DoSquare(i,i) and agree at both ends.",
+    note="Stroke geometry, cap extents, circles for points are NOT decided. Stale normals passed to a delta callback (D12) are reported under C12.",
+    technique="static analysis: loop-carried-state dataflow + AST rule on reads of delta + interpreted dispatch tables",
+    design="§3 E2/E3, §4 C07", engine="E2")
+
 NOT_APPLICABLE = {
     "C02": "exactness on degenerate rectilinear input is a runtime interplay of horizontal joins; no structural clause is a necessary condition (DESIGN §4)",
     "C06": "every clause is a distance/region statement over all polygons and deltas; nothing is visible in the shape of the code (DESIGN §4)",
@@ -94,6 +116,8 @@ def main():
              "kind_free_text": "fact extraction: clang -ast-dump=json and -O0 LLVM IR of a unity TU rebuilt from /repo on every run; Python query layers"},
             {"name": "E1", "path": "/verif/vlib/engines/e1_globals.py", "serves_properties": ["C14", "C12"],
              "kind_free_text": "global state, shared-data immutability, thread-safe externals, determinism lint"},
+            {"name": "E2", "path": "/verif/vlib/engines/e2_state.py", "serves_properties": ["C12", "C07"],
+             "kind_free_text": "member-state hygiene: def-before-use, clean-at-exit, Clear completeness, loop-carried state (AST effects + vlib/flow.py)"},
             {"name": "E3", "path": "/verif/vlib/engines/e3_tables.py", "serves_properties": ["C01"],
              "kind_free_text": "finite decision tables by abstract interpretation of the AST (vlib/evalx.py) against definitional oracles"},
             {"name": "E5", "path": "/verif/vlib/engines/e5_errors.py", "serves_properties": ["C11"],
